@@ -145,7 +145,11 @@ def bystander_for(index, every=8, phase=6):
     if index % every != phase:
         return None
     return {"n": 3 + (index // every) % 7, "gap": [0.0005, 0.003, 0.02][(index // every) % 3],
-            "lead": [0.0, 0.05, 0.3][(index // (3 * every)) % 3]}
+            "lead": [0.0, 0.05, 0.3][(index // (3 * every)) % 3],
+            # every other bystander has the SAME local identity as the node under test (an application that talks
+            # to two peers has one node object per peer, all with its own host name and realm); its peer also
+            # sends watchdog requests, so that base answers are produced on both nodes at the same time
+            "same_identity": (index // every) % 2 == 0, "dwr": True}
 
 
 def bystander_cost(scn, quantum):
@@ -281,7 +285,9 @@ class WorldA(object):
         group tag "by" and are left out of lib_threads() / node_socks() / stall targeting."""
         sim = self.sim
         hist2 = History(sim)
-        peer2 = ScriptedPeer(sim, self.net, BYPEER_HOST, BYPEER_REALM, BY_HOST, BY_REALM, hist2, name="bypeer")
+        b = self.scn.get("bystander") or {}
+        by_host, by_realm = (NODE_HOST, NODE_REALM) if b.get("same_identity") else (BY_HOST, BY_REALM)
+        peer2 = ScriptedPeer(sim, self.net, BYPEER_HOST, BYPEER_REALM, by_host, by_realm, hist2, name="bypeer")
         peer2.listen(("127.0.0.1", BY_PORT))
         self.by_peer = peer2
         apps = self.scn.get("apps", ())
@@ -293,7 +299,7 @@ class WorldA(object):
             from bromelia.base import DiameterRequest, DiameterAVP
             from bromelia.avps import SessionIdAVP, OriginHostAVP, OriginRealmAVP, DestinationRealmAVP
             cfg = node_config("CLIENT", apps, 30, BY_PORT)
-            cfg.update({"LOCAL_NODE_HOSTNAME": BY_HOST, "LOCAL_NODE_REALM": BY_REALM,
+            cfg.update({"LOCAL_NODE_HOSTNAME": by_host, "LOCAL_NODE_REALM": by_realm,
                         "PEER_NODE_HOSTNAME": BYPEER_HOST, "PEER_NODE_REALM": BYPEER_REALM})
             node2 = Diameter(config=cfg)
             self.by_node = node2
@@ -312,10 +318,12 @@ class WorldA(object):
             sim.spawn(consume, role="N:by_consumer")
             for k in range(n):
                 hb = 0x62000000 + k
-                peer2.send(C.app_request(app_id, 316, hb, hb, "bypeer;9;%d" % k, BYPEER_HOST, BYPEER_REALM, BY_REALM))
+                peer2.send(C.app_request(app_id, 316, hb, hb, "bypeer;9;%d" % k, BYPEER_HOST, BYPEER_REALM, by_realm))
+                if b.get("dwr"):
+                    peer2.send(C.dwr(BYPEER_HOST, BYPEER_REALM, hbh=0x63000000 + k, e2e=0x64000000 + k))
                 m = DiameterRequest(application_id=app_id, command_code=316,
-                                    avps=[SessionIdAVP(("by;9;%d" % k).encode()), OriginHostAVP(BY_HOST),
-                                          OriginRealmAVP(BY_REALM), DestinationRealmAVP(BYPEER_REALM),
+                                    avps=[SessionIdAVP(("by;9;%d" % k).encode()), OriginHostAVP(by_host),
+                                          OriginRealmAVP(by_realm), DestinationRealmAVP(BYPEER_REALM),
                                           DiameterAVP(code=9901, data=b"bystander-%03d" % k)])
                 node2.send_message(m)
                 sim.sleep(gap)
